@@ -2480,7 +2480,255 @@ def _rc_base(repo, record):
         "  (if negb self_initial then Some (select_interpolate data_) else None).\n")
 
 
-SPECIAL = {"Conv": translate_conv_outsize, "SpikeMath": translate_spikemath,
+# ============================================================================================================
+# Connection classes (inferno/neural/connections/{linear,conv}.py): LinearDense, LinearDirect, LinearLateral, Conv2D.
+# The methods are object plumbing over torch / einops operators that are outside the numeric subset, so they are
+# emitted as ABSTRACT SYNTAX (type aexp / astmt below: which attribute is tested, which accessor is read, which
+# operator is called with which operands in which order, which einops pattern string) - fail closed on any node or
+# statement shape not listed here.  Numeric pieces inside the subset are emitted as functions: LinearLateral's mask
+# (1 - torch.eye(size)) and its masked setters (value * self.mask).  Constructor defaults are emitted as literals.
+CC_HEADER = """(* GENERATED by tools/translate.py from inferno/neural/connections/{linear,conv}.py -- do not edit *)
+From Coq Require Import ZArith Bool List String Arith.
+From Inferno Require Import Base.Num.
+Import ListNotations.
+Open Scope string_scope.
+
+(* abstract syntax of the connection methods: expressions ... *)
+Inductive aexp :=
+| ASelf (attr : string)                               (* self.<attr> *)
+| AVar (name : string)                                (* parameter / local *)
+| AAttr (e : aexp) (attr : string)                    (* e.<attr> *)
+| ASub (e idx : aexp)                                 (* e[idx] *)
+| ACall (fn : string) (args : list aexp)              (* module-level operator: F.linear, ein.rearrange, torch.matmul, ... *)
+| AMeth (e : aexp) (meth : string) (args : list aexp) (* e.<meth>(args); calling e itself is meth = "__call__" *)
+| AKw (key : string) (e : aexp)                       (* keyword argument key=e *)
+| AStar (e : aexp) | AKwStar (e : aexp)               (* *e, **e *)
+| AGen (elt : aexp) (var : string) (iter : aexp)      (* (elt for var in iter) *)
+| ABin (op : string) (a b : aexp)
+| ACmp (op : string) (a b : aexp)
+| ABoolOp (op : string) (l : list aexp)               (* a and b and ... / a or b or ... *)
+| ANot (e : aexp)
+| ATuple (l : list aexp)
+| AStr (s : string) | AInt (z : Z) | ABool (b : bool) | ANone.
+(* ... and statements *)
+Inductive astmt :=
+| SAssign (v : string) (e : aexp)
+| SUnpack (vs : list string) (e : aexp)               (* a, b, c = e *)
+| SAug (v : string) (op : string) (e : aexp)          (* v op= e  (in place) *)
+| SIf (c : aexp) (t e : list astmt)
+| SExpr (e : aexp)
+| SReturn (e : aexp).
+"""
+CC_MODS = {"F", "ein", "torch", "math"}
+CC_BIN = {ast.Add: "+", ast.Sub: "-", ast.Mult: "*", ast.Div: "/"}
+CC_CMP = {ast.Is: "is", ast.IsNot: "is not", ast.Eq: "==", ast.NotEq: "!=", ast.Lt: "<", ast.LtE: "<=", ast.Gt: ">", ast.GtE: ">="}
+CC_METHODS = ["inshape", "outshape", "selector", "like_bias", "like_input", "like_synaptic", "presyn_receptive",
+              "postsyn_receptive", "forward"]
+CC_CLASSES = [("inferno/neural/connections/linear.py", "LinearDense"), ("inferno/neural/connections/linear.py", "LinearDirect"),
+              ("inferno/neural/connections/linear.py", "LinearLateral"), ("inferno/neural/connections/conv.py", "Conv2D")]
+
+
+def _cc_q(s_):
+    if '"' in s_ or "\\" in s_ or "\n" in s_:
+        raise TranslationError(f"string literal {s_!r} cannot be emitted")
+    return '"' + s_ + '"'
+
+
+def _cc_dotted(n):
+    """F.linear / torch.is_floating_point -> 'F.linear' when rooted at a known module alias, else None"""
+    parts = []
+    while isinstance(n, ast.Attribute):
+        parts.append(n.attr)
+        n = n.value
+    if isinstance(n, ast.Name) and n.id in CC_MODS and parts:
+        return ".".join([n.id] + parts[::-1])
+    return None
+
+
+def _cc_exp(where, n, pats):
+    def E(x):
+        return _cc_exp(where, x, pats)
+
+    def L(xs):
+        return "[" + "; ".join(xs) + "]"
+    if isinstance(n, ast.Name):
+        return f"(AVar {_cc_q(n.id)})"
+    if isinstance(n, ast.Constant):
+        v = n.value
+        if v is None:
+            return "ANone"
+        if isinstance(v, bool):
+            return f"(ABool {'true' if v else 'false'})"
+        if isinstance(v, int):
+            return f"(AInt ({v})%Z)"
+        if isinstance(v, str):
+            return f"(AStr {_cc_q(v)})"
+        raise TranslationError(f"{where}: unsupported constant {v!r}")
+    if isinstance(n, ast.UnaryOp) and isinstance(n.op, ast.USub) and isinstance(n.operand, ast.Constant) \
+            and isinstance(n.operand.value, int) and not isinstance(n.operand.value, bool):
+        return f"(AInt ({-n.operand.value})%Z)"
+    if isinstance(n, ast.Attribute):
+        if isinstance(n.value, ast.Name) and n.value.id == "self":
+            return f"(ASelf {_cc_q(n.attr)})"
+        if _cc_dotted(n) is not None:
+            raise TranslationError(f"{where}: module attribute {ast.unparse(n)} used as a value")
+        return f"(AAttr {E(n.value)} {_cc_q(n.attr)})"
+    if isinstance(n, ast.Subscript):
+        return f"(ASub {E(n.value)} {E(n.slice)})"
+    if isinstance(n, ast.Tuple):
+        return f"(ATuple {L([E(x) for x in n.elts])})"
+    if isinstance(n, ast.Starred):
+        return f"(AStar {E(n.value)})"
+    if isinstance(n, ast.BinOp) and type(n.op) in CC_BIN:
+        return f"(ABin {_cc_q(CC_BIN[type(n.op)])} {E(n.left)} {E(n.right)})"
+    if isinstance(n, ast.Compare) and len(n.ops) == 1 and type(n.ops[0]) in CC_CMP:
+        return f"(ACmp {_cc_q(CC_CMP[type(n.ops[0])])} {E(n.left)} {E(n.comparators[0])})"
+    if isinstance(n, ast.BoolOp):
+        return f"(ABoolOp {_cc_q('and' if isinstance(n.op, ast.And) else 'or')} {L([E(x) for x in n.values])})"
+    if isinstance(n, ast.UnaryOp) and isinstance(n.op, ast.Not):
+        return f"(ANot {E(n.operand)})"
+    if isinstance(n, ast.GeneratorExp) and len(n.generators) == 1 and not n.generators[0].ifs \
+            and isinstance(n.generators[0].target, ast.Name):
+        g = n.generators[0]
+        return f"(AGen {E(n.elt)} {_cc_q(g.target.id)} {E(g.iter)})"
+    if isinstance(n, ast.Call):
+        args = [E(a) for a in n.args]
+        for k in n.keywords:
+            args.append(f"(AKwStar {E(k.value)})" if k.arg is None else f"(AKw {_cc_q(k.arg)} {E(k.value)})")
+        fn = _cc_dotted(n.func)
+        if fn is None and isinstance(n.func, ast.Name):
+            fn = n.func.id
+        if fn is not None:
+            if fn in ("ein.rearrange", "ein.einsum"):
+                ps = [a.value for a in n.args if isinstance(a, ast.Constant) and isinstance(a.value, str)]
+                if len(ps) != 1:
+                    raise TranslationError(f"{where}: {fn} without exactly one literal pattern")
+                pats.append(ps[0])
+            return f"(ACall {_cc_q(fn)} {L(args)})"
+        if isinstance(n.func, ast.Attribute):
+            return f"(AMeth {E(n.func.value)} {_cc_q(n.func.attr)} {L(args)})"
+        raise TranslationError(f"{where}: unsupported call {ast.unparse(n.func)}")
+    raise TranslationError(f"{where}: unsupported expression {type(n).__name__}: {ast.unparse(n)[:80]}")
+
+
+def _cc_block(where, stmts, pats):
+    out = []
+    for st in _nc_strip(stmts):
+        if isinstance(st, ast.Assign) and len(st.targets) == 1 and isinstance(st.targets[0], ast.Name):
+            out.append(f"SAssign {_cc_q(st.targets[0].id)} {_cc_exp(where, st.value, pats)}")
+        elif isinstance(st, ast.Assign) and len(st.targets) == 1 and isinstance(st.targets[0], ast.Tuple) \
+                and all(isinstance(x, ast.Name) for x in st.targets[0].elts):
+            out.append(f"SUnpack [{'; '.join(_cc_q(x.id) for x in st.targets[0].elts)}] {_cc_exp(where, st.value, pats)}")
+        elif isinstance(st, ast.AugAssign) and isinstance(st.target, ast.Name) and type(st.op) in CC_BIN:
+            out.append(f"SAug {_cc_q(st.target.id)} {_cc_q(CC_BIN[type(st.op)])} {_cc_exp(where, st.value, pats)}")
+        elif isinstance(st, ast.If):
+            out.append(f"SIf {_cc_exp(where, st.test, pats)} {_cc_block(where, st.body, pats)} {_cc_block(where, st.orelse, pats)}")
+        elif isinstance(st, ast.Return) and st.value is not None:
+            out.append(f"SReturn {_cc_exp(where, st.value, pats)}")
+        elif isinstance(st, ast.Expr) and isinstance(st.value, ast.Call):
+            out.append(f"SExpr {_cc_exp(where, st.value, pats)}")
+        else:
+            raise TranslationError(f"{where}: unsupported statement {type(st).__name__}: {ast.unparse(st)[:80]}")
+    return "[" + ";\n     ".join(out) + "]"
+
+
+def _cc_deco(f):
+    return [ast.unparse(d) for d in f.decorator_list]
+
+
+def translate_connection_classes(repo: str = REPO):
+    out, man = [CC_HEADER], []
+    trees = {}
+    for path, cn in CC_CLASSES:
+        if path not in trees:
+            trees[path] = ast.parse(open(os.path.join(repo, path)).read())
+        cls = [n for n in trees[path].body if isinstance(n, ast.ClassDef) and n.name == cn]
+        if len(cls) != 1:
+            raise TranslationError(f"class {cn} not found in {path}")
+        cdef = cls[0]
+        fdefs = [n for n in cdef.body if isinstance(n, ast.FunctionDef)]
+        out.append(f"(* ---------------------------------------------------------------- {path}: class {cn}"
+                   f"({', '.join(ast.unparse(b) for b in cdef.bases)}) *)")
+        out.append(f"Definition {cn}_bases : list string := [{'; '.join(_cc_q(ast.unparse(b)) for b in cdef.bases)}].")
+
+        def record(name, f):
+            man.append({"module": "ConnectionClasses", "source": path, "function": f"{cn}.{name}",
+                        "lines": [f.lineno, f.end_lineno], "sha256": hashlib.sha256(ast.dump(f).encode()).hexdigest()})
+        # methods (property getters and plain methods; setters are handled below)
+        for m in CC_METHODS:
+            cands = [f for f in fdefs if f.name == m and not any(d.endswith(".setter") for d in _cc_deco(f))]
+            if len(cands) != 1:
+                raise TranslationError(f"{cn}.{m}: expected exactly one definition, found {len(cands)}")
+            f = cands[0]
+            params = [a.arg for a in f.args.args] + ([f"*{f.args.vararg.arg}"] if f.args.vararg else []) + \
+                     ([f"**{f.args.kwarg.arg}"] if f.args.kwarg else [])
+            if f.args.kwonlyargs or f.args.defaults or params[0] != "self":
+                raise TranslationError(f"{cn}.{m}: unexpected signature")
+            pats = []
+            body = _cc_block(f"{cn}.{m}", f.body, pats)
+            out.append(f"Definition {cn}_{m}_params : list string := [{'; '.join(_cc_q(x) for x in params[1:])}].")
+            out.append(f"Definition {cn}_{m}_is_property : bool := {'true' if 'property' in _cc_deco(f) else 'false'}.")
+            out.append(f"Definition {cn}_{m} : list astmt :=\n    {body}.")
+            out.append(f"Definition {cn}_{m}_patterns : list string := [{'; '.join(_cc_q(x) for x in pats)}].")
+            record(m, f)
+        # constructor defaults
+        init = [f for f in fdefs if f.name == "__init__"]
+        if len(init) != 1:
+            raise TranslationError(f"{cn}.__init__ not found")
+        a = init[0].args
+        pairs = list(zip([x.arg for x in a.args][len(a.args) - len(a.defaults):], a.defaults)) + \
+            [(x.arg, d) for x, d in zip(a.kwonlyargs, a.kw_defaults) if d is not None]
+        out.append(f"(* {cn}.__init__: positional parameters, keyword-only parameters, defaults of the optional ones *)")
+        out.append(f"Definition {cn}_init_positional : list string := [{'; '.join(_cc_q(x.arg) for x in a.args[1:])}].")
+        out.append(f"Definition {cn}_init_kwonly : list string := [{'; '.join(_cc_q(x.arg) for x in a.kwonlyargs)}].")
+        for name, d in pairs:
+            out.append(f"Definition {cn}_default_{name} : aexp := {_cc_exp(f'{cn}.__init__ default {name}', d, [])}.")
+        record("__init__ (signature, defaults)", init[0])
+        # LinearLateral: the mask buffer and the masked setters, as functions over the numeric signature
+        if cn == "LinearLateral":
+            regs = [st for st in ast.walk(init[0]) if isinstance(st, ast.Call) and ast.unparse(st.func) == "self.register_buffer"
+                    and st.args and isinstance(st.args[0], ast.Constant) and st.args[0].value == "mask"]
+            if len(regs) != 1 or len(regs[0].args) != 2:
+                raise TranslationError("LinearLateral.__init__: mask buffer registration not found")
+            e = regs[0].args[1]
+            ok = (isinstance(e, ast.BinOp) and isinstance(e.op, ast.Sub) and isinstance(e.left, ast.Constant) and e.left.value == 1
+                  and not isinstance(e.left.value, bool)
+                  and isinstance(e.right, ast.Call) and ast.unparse(e.right.func) == "torch.eye" and len(e.right.args) == 1
+                  and not e.right.keywords and ast.unparse(e.right.args[0]) == "size")
+            if not ok:
+                raise TranslationError(f"LinearLateral mask expression {ast.unparse(e)} is not `1 - torch.eye(size)`")
+            out.append("(* mask buffer: entry (i, j) of `1 - torch.eye(size)` *)")
+            out.append("Definition LinearLateral_mask (N : Num) (i j : nat) : T N :=\n"
+                       "  (sub N (one N) (if Nat.eqb i j then one N else zero N)).")
+            out.append(f"Definition LinearLateral_mask_persistent : aexp := "
+                       f"{_cc_exp('LinearLateral mask', [k.value for k in regs[0].keywords if k.arg == 'persistent'][0], [])}.")
+            for pn in ("weight", "delay"):
+                sets = [f for f in fdefs if f.name == pn and f"{pn}.setter" in _cc_deco(f)]
+                gets = [f for f in fdefs if f.name == pn and "property" in _cc_deco(f)]
+                if len(sets) != 1 or len(gets) != 1:
+                    raise TranslationError(f"LinearLateral.{pn}: getter / setter not found")
+                body = _nc_strip(sets[0].body)
+                if len(body) != 1 or not isinstance(body[0], ast.Expr) or not isinstance(body[0].value, ast.Call):
+                    raise TranslationError(f"LinearLateral.{pn} setter: unexpected body")
+                call = body[0].value
+                if ast.unparse(call.func) != f"WeightBiasDelayMixin.{pn}.fset" or len(call.args) != 2 \
+                        or ast.unparse(call.args[0]) != "self" or call.keywords:
+                    raise TranslationError(f"LinearLateral.{pn} setter: does not delegate to WeightBiasDelayMixin.{pn}.fset(self, ...)")
+                v = call.args[1]
+                if not (isinstance(v, ast.BinOp) and isinstance(v.op, ast.Mult) and ast.unparse(v.left) == "value"
+                        and ast.unparse(v.right) == "self.mask"):
+                    raise TranslationError(f"LinearLateral.{pn} setter: assigned value {ast.unparse(v)} is not `value * self.mask`")
+                out.append(f"(* {pn} setter: WeightBiasDelayMixin.{pn}.fset(self, value * self.mask), element-wise *)")
+                out.append(f"Definition LinearLateral_{pn}_set (N : Num) (value : T N) (self_mask : T N) : T N :=\n"
+                           f"  (mul N value self_mask).")
+                gb = _cc_block(f"LinearLateral.{pn} getter", gets[0].body, [])
+                out.append(f"Definition LinearLateral_{pn}_get : list astmt :=\n    {gb}.")
+                record(f"{pn} (getter, setter)", sets[0])
+        out.append("")
+    return "\n".join(out), man
+
+
+SPECIAL = {"Conv": translate_conv_outsize, "ConnectionClasses": translate_connection_classes, "SpikeMath": translate_spikemath,
            "Constraints": translate_constraints, "NeuronClasses": translate_neuron_classes,
            "SynapseClasses": translate_synapse_classes, "ReducerClasses": translate_reducer_classes}
 
